@@ -2,6 +2,8 @@
 # Offline build of the framework from files on disk (run once after restore).
 set -e
 cd "$(dirname "$0")"
-(cd lean && lake build 2>&1 | tail -5)
-if [ -x harness/rust/build.sh ]; then harness/rust/build.sh; fi
+export PYTHONPATH="$PWD/harness:/repo" PYTHONDONTWRITEBYTECODE=1
+(cd lean && lake build 2>&1 | tail -3)
+harness/rust/build.sh
+/venv/bin/python -m bridge.warm
 echo setup-ok
